@@ -100,6 +100,10 @@ func Run(ctx *common.Ctx) {
 		}
 		s.runProgram(program{Src: e.Query, Shape: "any", Origin: "corpus", Corpus: e.Inputs})
 	}
+	// 1b. allocator-address-reuse stress (few, long runs with their own step budget)
+	for k := 0; k < ctx.N(2, 6); k++ {
+		s.runProgram(program{Src: stressProgram, Shape: "num", Origin: "stress", Corpus: []any{10000, 6000 + 1000*k}, Budget: 80_000_000})
+	}
 	// 2. templates with random holes, 3. recursive grammar — interleaved so that a wall-clock
 	//    stop keeps both.
 	nInst := ctx.N(3, 90)
@@ -187,7 +191,11 @@ func (s *state) runProgram(p program) {
 		}
 		cs = append(cs, c)
 	}
-	if p.Origin == "corpus" {
+	if p.Origin == "stress" {
+		for _, v := range p.Corpus {
+			add(input{v, "size"})
+		}
+	} else if p.Origin == "corpus" {
 		for i, v := range p.Corpus {
 			if i >= 4 {
 				break
@@ -234,6 +242,11 @@ func (s *state) runProgram(p program) {
 			"input": marshal(c.copyIn), "input_kind": c.in.Kind,
 			"v": marshal(c.copyV), "v_kind": c.v.Kind, "w": marshal(c.copyW), "w_kind": c.w.Kind,
 			"history": "runs of this *Code so far: inputs 0.." + fmt.Sprint(len(cs)-1) + " in order, round 1 and 2 on the same Go objects, round 3 on fresh deep copies",
+		}
+		if p.Origin == "stress" {
+			m["cmd_loop"] = "for i in 1 2 3 4 5 6; do echo " + marshal(c.copyIn) + " | gojq -c " + shQuote(p.Src) + "; done   # every line must be []; observed: non-empty lines that differ from run to run (depends on when the Go GC runs)"
+			m["correct_output"] = "[] in every run (`expected` below is merely what run 1 produced)"
+			m["mechanism"] = "func.go allocator identifies the containers it owns by address only (map[uintptr]struct{}); updateArrayIndex re-allocates an owned array that outgrows its capacity and the dead array's address stays registered; after a GC the address is reused by an array built by the update query, allocated(v) is then true for it and updateArrayIndex writes into it in place although it is shared"
 		}
 		if c.expressible {
 			m["cmd"] = "echo " + shQuote(marshal(c.copyIn)) + " | gojq -c --argjson v " + shQuote(marshal(c.copyV)) + " --argjson w " + shQuote(marshal(c.copyW)) + " " + shQuote(p.Src) +
@@ -319,7 +332,11 @@ func (s *state) runProgram(p program) {
 				cells(k.v, base)
 			}
 		}
-		cctx := common.NewCountCtx(stepBudget)
+		budget := stepBudget
+		if p.Budget > 0 {
+			budget = p.Budget
+		}
+		cctx := common.NewCountCtx(budget)
 		var iter gojq.Iter
 		var outs []*frozen
 		nodes := 0
@@ -547,8 +564,8 @@ func (s *state) runProgram(p program) {
 		s.cases++
 		s.dist("input:" + c.in.Kind)
 		if usesVars {
-			s.dist("var-v:" + c.v.Kind)
-			s.dist("var-w:" + c.w.Kind)
+			s.dist("variable:" + c.v.Kind)
+			s.dist("variable:" + c.w.Kind)
 		}
 		if c.dead {
 			s.dist("case:not-comparable")
@@ -567,7 +584,6 @@ func (s *state) runProgram(p program) {
 			s.dist("construct:" + k)
 		}
 	}
-	s.dist("shape:" + p.Shape)
 	if s.sharing[p.Src] {
 		s.dist("program:shared-structure-" + p.Origin)
 	}
